@@ -930,15 +930,19 @@ func (w *world) httpDo(method, path, rawQuery, body string) {
 			w.serv.ServeHTTP(h.rec, req)
 			close(h.done)
 		}()
-		// wait until the request has either completed or registered its temporary connection
-		deadline := time.Now().Add(2 * time.Second)
+		// wait until the request has either completed or sent its first request (access or header
+		// authentication) to the messaging system. Registering the temporary connection is not
+		// enough: between that and the first request the handler goroutine is in nobody's queue, and
+		// if it is descheduled there the gateway looks idle although the request has not begun
+		// (false-alarm log 29)
+		deadline := time.Now().Add(4 * time.Second)
 		for time.Now().Before(deadline) {
 			select {
 			case <-h.done:
 				return
 			default:
 			}
-			if w.mq.logLen() > 0 {
+			if w.mq.logHasReq() {
 				return
 			}
 			time.Sleep(20 * time.Microsecond)
